@@ -414,6 +414,7 @@ def constructor_grid(ctx):
     import inspect, random
     import construct as cons
     r = random.Random('c18-constructors')
+    lock = Lock(ctx) if getattr(ctx, 'driver', None) is not None else None
     for rule, cls in sorted(models.TREE_MODELS.items()):
         if not hasattr(cls, 'from_value'):
             continue
@@ -436,6 +437,8 @@ def constructor_grid(ctx):
                 ctx.case(('constructor-grid', cls.__name__, iby, pi))
                 want = (pi or '') + iby
                 got = [x.indent for x in m.raw_meta]
+                if lock is not None:     # the model's rule (theorem new_indent_rule) on the same arguments
+                    lock.add(f'W newindent - {enc_text(pi) if pi else "-"} {enc_text(iby)}', enc_text(got[0]) if got else '?', rep)
                 if got != [want, want]:
                     ctx.oracle_fail('C18:indent-rule:construct', f'{cls.__name__}.from_value(meta=..., indent_by={iby!r}' + (f', indent={pi!r}' if pi else '') +
                                     f') gives items indented {got!r}, rule: {want!r}', rep)
@@ -444,6 +447,11 @@ def constructor_grid(ctx):
                 got = [x.indent for x in m.raw_meta]
                 if got != [want] * 3:
                     ctx.oracle_fail('C18:indent-rule:construct-then-map', f'{cls.__name__} built with indent_by={iby!r}: after meta["ww"] = ... the items are indented {got!r}, rule: {want!r}', rep)
+    if lock is not None:
+        n = ctx.extra.get('lockstep_lines', 0)
+        lock.finish()
+        ctx.extra['lockstep_lines_constructor_grid'] = len(lock.lines)
+        ctx.extra['lockstep_lines'] = n
 
 
 def run(ctx):
